@@ -260,6 +260,9 @@ pub fn run(cfg: &Cfg, rep: &mut Report) {
     let stride: u64 = if cfg.tiny { 1 << 26 } else if cfg.quick() { 1021 } else { 1 };
     let before = rep.counters.get("stage.f32.truncated").copied();
     run_cases(cfg, "f32", chunks, rep, |_rng, ctx| {
+        if ctx.cfg.tiny && (ctx.index / 16) % 16 != 0 {
+            return;
+        }
         let per = (1u64 << 32) / chunks;
         let lo = ctx.index * per;
         let mut b = lo + (ctx.index * 7919) % stride.min(per);
